@@ -38,7 +38,7 @@ ASSUMPTIONS = [
     "phase-space oracles (moments of quadratic polynomials incl. the Moyal ordering term, parity, overlap, Wigner "
     "function of weighted Gaussians) are typed here from first principles and self-tested against brute-force "
     "Fock-space operator algebra at start-up",
-    "same-representation comparisons: 1e-8 * (1 + |expected|); cross-representation comparisons with the Fock object only "
+    "same-representation comparisons: 1e-8 * (1 + |expected|) (Fock poly_quad_expectation 1e-6, Wigner points 1e-7); cross-representation comparisons with the Fock object only "
     "when the thewalrus tensor has edge weight (photon numbers >= cutoff-2 in any mode, plus the weight above the cutoff) "
     "< 1e-4, with tolerance 1e-6 + C*edge (C per quantity in _CROSS, >= 10x the largest ratio seen on 800 calibration cases); "
     "Wigner function: the rigorous bound 2 sqrt(1-trace)/(pi hbar)",
@@ -46,8 +46,8 @@ ASSUMPTIONS = [
     "documented preconditions respected: Gaussian number_expectation <= 2 modes; sorted modes for reduced_*; "
     "squeezing()/is_squeezed() only judged on modes whose reduced state is pure and either exactly vacuum or "
     "squeezed by r >= 0.02",
-    "quadrature-pdf checks integrate the Wigner function with the library's own Simpson rule on a grid of "
-    "+-6.5 sigma with step sigma/5: tolerance 3e-3 of the peak",
+    "x_quad_values / p_quad_values integrate the Wigner function with the library's own Simpson rule; grids of +-6.5 sigma with "
+    "step <= 1/5 of the marginal and 1/4 of the conditional width (cat: sigma/20): tolerance 3e-3 of the peak of the pdf",
 ]
 REQUIRED_LABELS = {"all": ["rep:gaussian", "rep:bosonic", "rep:fock", "rep:fock_ket", "subset", "reordered", "mixed", "pure",
                            "displaced", "correlated", "cross_fock", "m:parity_expectation", "m:reduced_dm",
@@ -570,6 +570,9 @@ def _num(x):
     return a
 
 
+STATS = None  # development aid: set to a dict to record the largest |diff| / tolerance per signature
+
+
 def _cmp(sig, got, exp, tol, what=""):
     """absolute tolerance scaled by 1 + max|exp|"""
     g, e = _num(got), _num(exp)
@@ -581,6 +584,8 @@ def _cmp(sig, got, exp, tol, what=""):
         raise _Fail(sig + ".nonfinite", "%s: got %r" % (what or sig, got))
     err = float(np.max(np.abs(g - e)))
     lim = tol * (1.0 + float(np.max(np.abs(e))))
+    if STATS is not None and lim > 0:
+        STATS[sig] = max(STATS.get(sig, 0.0), err / lim)
     if err > lim:
         raise _Fail(sig, "%s: got %s expected %s |diff|=%.3g > %.3g" % (what or sig, _short(g), _short(e), err, lim))
     return err / lim if lim > 0 else 0.0
@@ -609,9 +614,9 @@ def _real(x, sig):
     return a
 
 
-def _modes_call(pr, name, modes, expect_fn, sig, tol=TIGHT, **kw):
-    """method(modes) must equal expect_fn(modes) for the requested order, or - only if the modes are not sorted -
-    raise ValueError"""
+def _modes_call(pr, name, modes, sig, **kw):
+    """method(modes): returns the answer, or None if the call raised ValueError for UNSORTED modes (the classes document /
+    enforce sorted input for reduced_*); ValueError for sorted, valid modes is a failure"""
     srt = list(modes) == sorted(modes)
     try:
         got = pr.call(name, list(modes), **kw)
@@ -647,11 +652,10 @@ def _norm_or_not(sig, got, exp, tol, what):
 
 def check_ps_object(pr, o, a, R):
     """pr: Probe of a G or B object; o: PS oracle; a: argument dict; R: result sink for cross-representation"""
-    rep, s, n, h = pr.rep, pr.s, o.n, o.h
+    rep, n, h = pr.rep, o.n, o.h
     nm = REPNAME[rep]
     modes = a["modes"]
     srt = sorted(modes)
-    K = len(o.w)
     fx = a["fx"]
 
     # ---- raw accessors ------------------------------------------------------------------------
@@ -670,7 +674,7 @@ def check_ps_object(pr, o, a, R):
 
     # ---- reduced moments: sub-blocks in the requested order ---------------------------------------
     if rep == "G":
-        got = _modes_call(pr, "reduced_gaussian", modes, None, "gaussian.reduced_gaussian")
+        got = _modes_call(pr, "reduced_gaussian", modes, "gaussian.reduced_gaussian")
         if got is not None:
             i = o.idx(modes)
             _cmp("gaussian.reduced_gaussian.means", got[0], np.real(o.mus[0][i]), 1e-12, "reduced_gaussian(%r)[0]" % (modes,))
@@ -679,7 +683,7 @@ def check_ps_object(pr, o, a, R):
         i = o.idx([modes[0]])
         _cmp("gaussian.reduced_gaussian.int", g1[1], np.real(o.Vs[0][np.ix_(i, i)]), 1e-12)
     else:
-        got = _modes_call(pr, "reduced_bosonic", modes, None, "bosonic.reduced_bosonic")
+        got = _modes_call(pr, "reduced_bosonic", modes, "bosonic.reduced_bosonic")
         if got is not None:
             i = [j for m in modes for j in (m, m + n)]
             _cmp("bosonic.reduced_bosonic.weights", got[0], o.w, 1e-12)
@@ -755,7 +759,7 @@ def check_ps_object(pr, o, a, R):
 
     # ---- Fock-basis matrices -------------------------------------------------------------------
     D = a["D"]
-    got = _modes_call(pr, "reduced_dm", modes, None, nm + ".reduced_dm", cutoff=D)
+    got = _modes_call(pr, "reduced_dm", modes, nm + ".reduced_dm", cutoff=D)
     soft = a["soft"]
     if got is not None:
         exp = fx["red"](modes)
@@ -882,12 +886,13 @@ def check_ps_object(pr, o, a, R):
         raise _Fail(nm + ".wigner.layout", "wigner(xvec[%d], pvec[%d]) has shape %r, every other class returns W[p_index, x_index]" % (len(xs), len(ps_), W.shape))
     _cmp(nm + ".wigner", W, exp, TIGHT * 10, "wigner(%d)" % m0)
     R["wigner"] = W
-    gx, gp = a["gridx"][m0], a["gridp"][m0]
-    if a["quadvals"]:
-        xq = _real(pr.call("x_quad_values", int(m0), gx.copy(), gp.copy()), nm + ".x_quad_values")
-        pq = _real(pr.call("p_quad_values", int(m0), gx.copy(), gp.copy()), nm + ".p_quad_values")
-        _cmp_pdf(nm + ".x_quad_values", xq, o.quadpdf(m0, gx, 0.0), "x_quad_values(%d)" % m0)
-        _cmp_pdf(nm + ".p_quad_values", pq, o.quadpdf(m0, gp, np.pi / 2), "p_quad_values(%d)" % m0)
+    qg = a["quadgrid"][m0]
+    gx = qg["xc"]
+    if a["quadvals"]:  # evaluation points coarse, integration variable fine (and of a different length)
+        xq = _real(pr.call("x_quad_values", int(m0), qg["xc"].copy(), qg["pf"].copy()), nm + ".x_quad_values")
+        pq = _real(pr.call("p_quad_values", int(m0), qg["xf"].copy(), qg["pc"].copy()), nm + ".p_quad_values")
+        _cmp_pdf(nm + ".x_quad_values", xq, o.quadpdf(m0, qg["xc"], 0.0), "x_quad_values(%d)" % m0)
+        _cmp_pdf(nm + ".p_quad_values", pq, o.quadpdf(m0, qg["pc"], np.pi / 2), "p_quad_values(%d)" % m0)
     if rep == "B":
         got = _real(pr.call("marginal", int(m0), gx.copy(), a["phi"]), "bosonic.marginal")
         _cmp("bosonic.marginal", got, o.quadpdf(m0, gx, a["phi"]), TIGHT, "marginal(%d, phi=%r)" % (m0, a["phi"]))
@@ -1005,7 +1010,7 @@ def _f29_pred(o, modes, D, got):
 # checks of a BaseFockState ("F": tensor data, "K": ket data) against exact formulas on the tensor rho
 # =================================================================================================
 def check_fock_object(pr, rho, n, h, a, R):
-    s, rep = pr.s, pr.rep
+    rep = pr.rep
     D = rho.shape[0]
     modes = a["modes"]
     srt = sorted(modes)
@@ -1056,7 +1061,7 @@ def check_fock_object(pr, rho, n, h, a, R):
         raise _Fail("fock.number_expectation.duplicates_accepted", "duplicate modes did not raise ValueError")
 
     # ---- reduced density matrices ---------------------------------------------------------------
-    got = _modes_call(pr, "reduced_dm", modes, None, "fock.reduced_dm")
+    got = _modes_call(pr, "reduced_dm", modes, "fock.reduced_dm")
     if got is not None:
         _cmp("fock.reduced_dm", got, fockref.reduce_dm(rho, n, modes), T, "reduced_dm(%r)" % (modes,))
         R["reduced_dm"] = np.asarray(got)
@@ -1075,15 +1080,15 @@ def check_fock_object(pr, rho, n, h, a, R):
         A2, d2 = ps0.rotated(a["A"], a["d"], a["pq_phi"])
         exp = fk_poly(rho, n, A2, d2, a["k0"], h)
         got = _real(pr.call("poly_quad_expectation", a["A"].copy(), a["d"].copy(), a["k0"], phi=a["pq_phi"], once_=a.get("polyquad_heavy", False)), "fock.poly_quad_expectation")
-        _cmp("fock.poly_quad_expectation.mean", got[0], exp[0], T * 10, "poly_quad_expectation mean (phi=%r)" % a["pq_phi"])
+        _cmp("fock.poly_quad_expectation.mean", got[0], exp[0], T * 100, "poly_quad_expectation mean (phi=%r)" % a["pq_phi"])
         R["poly_quad_expectation"] = got
         if a.get("polyquad_var_exact"):
-            _cmp("fock.poly_quad_expectation.var", got[1], exp[1], T * 10, "poly_quad_expectation var (phi=%r)" % a["pq_phi"])
+            _cmp("fock.poly_quad_expectation.var", got[1], exp[1], T * 100, "poly_quad_expectation var (phi=%r)" % a["pq_phi"])
         if rep == "F":
             dd = np.zeros(2 * n)
             dd[m0] = 1.0
             got = _real(pr.call("poly_quad_expectation", None, dd, 0, phi=a["phi"]), "fock.poly_quad_expectation")
-            _cmp("fock.poly_quad_vs_quad_expectation.mean", got[0], fk_quad(rho, n, m0, a["phi"], h)[0], T * 10)
+            _cmp("fock.poly_quad_vs_quad_expectation.mean", got[0], fk_quad(rho, n, m0, a["phi"], h)[0], T * 100)
         pr.labels.add("fock_polyquad")
 
     # ---- Wigner function ----------------------------------------------------------------------
@@ -1096,12 +1101,12 @@ def check_fock_object(pr, rho, n, h, a, R):
     R["wigner"] = W
     w00 = _real(pr.call("wigner", int(m0), np.array([0.0]), np.array([0.0])), "fock.wigner")
     _cmp("fock.parity_vs_wigner_origin", pr.call("parity_expectation", [int(m0)]), np.pi * h * float(w00[0, 0]), T)
-    if "gridx" in a and a["quadvals"]:
-        gx, gp_ = a["gridx"][m0], a["gridp"][m0]
-        xq = _real(pr.call("x_quad_values", int(m0), gx.copy(), gp_.copy()), "fock.x_quad_values")
-        pq = _real(pr.call("p_quad_values", int(m0), gx.copy(), gp_.copy()), "fock.p_quad_values")
-        _cmp_pdf("fock.x_quad_values", xq, fk_quadpdf(r1, gx, 0.0, h), "x_quad_values(%d)" % m0)
-        _cmp_pdf("fock.p_quad_values", pq, fk_quadpdf(r1, gp_, np.pi / 2, h), "p_quad_values(%d)" % m0)
+    if a.get("quadgrid_fock") and a["quadvals"]:
+        qg = a["quadgrid_fock"][m0]
+        xq = _real(pr.call("x_quad_values", int(m0), qg["xc"].copy(), qg["pf"].copy()), "fock.x_quad_values")
+        pq = _real(pr.call("p_quad_values", int(m0), qg["xf"].copy(), qg["pc"].copy()), "fock.p_quad_values")
+        _cmp_pdf("fock.x_quad_values", xq, fk_quadpdf(r1, qg["xc"], 0.0, h), "x_quad_values(%d)" % m0)
+        _cmp_pdf("fock.p_quad_values", pq, fk_quadpdf(r1, qg["pc"], np.pi / 2, h), "p_quad_values(%d)" % m0)
 
     # ---- fidelities ---------------------------------------------------------------------------
     fv = _real(pr.call("fidelity_vacuum"), "fock.fidelity_vacuum")
@@ -1191,8 +1196,8 @@ def tri_case(draw):
     amp = {"none": 0.0, "small": 0.6, "large": 2.0}[disp]
     mu = [0.0] * (2 * n) if disp == "none" else [draw(gen.fl(-amp, amp)) for _ in range(2 * n)]
     V = np.asarray(V)
-    if n >= 2 and draw(st.booleans()):  # extra passive mixing: keeps the kind (pure/mixed), correlates the modes
-        O = gen.orth_symplectic(draw(gen.unitary(n, ["haar", "orth", "single_bs", "haar"]))[1])
+    if n >= 2 and draw(st.integers(0, 3)) > 0:  # extra passive mixing: keeps the kind (pure/mixed), correlates the modes
+        O = gen.orth_symplectic(draw(gen.unitary(n, ["haar", "orth", "haar"]))[1])
         V = O @ V @ O.T
         V = (V + V.T) / 2
         kind += "+mixed_modes"
@@ -1217,28 +1222,45 @@ def _decode_args(case, n, h):
     return a
 
 
-def _int_grids(mu, V, n):
-    gx, gp, = {}, {}
+def _quadgrid(mx, sx, mp, sp, step_x, step_p):
+    """coarse evaluation points (9, +-2.5 sigma) and fine integration grids (+-6.5 sigma, odd number of points)"""
+    def fine(m, s_, step):
+        k = int(np.ceil(13.0 * s_ / step))
+        k = min(k + 1 - k % 2, 801)
+        return m + s_ * np.linspace(-6.5, 6.5, k)
+    return {"xc": mx + sx * np.linspace(-2.5, 2.5, 9), "pc": mp + sp * np.linspace(-2.5, 2.5, 9), "xf": fine(mx, sx, step_x), "pf": fine(mp, sp, step_p)}
+
+
+def _int_grids(mu, V, n, cap=np.inf):
+    """Simpson step: 1/5 of the marginal width and 1/4 of the conditional width of the Gaussian (and at most `cap`: the Wigner
+    function of a tensor truncated at D has structure on the scale sqrt(hbar / D))"""
+    out = {}
     for m in range(n):
-        gx[m] = mu[m] + np.sqrt(V[m, m]) * np.linspace(-6.5, 6.5, 67)
-        gp[m] = mu[m + n] + np.sqrt(V[m + n, m + n]) * np.linspace(-6.5, 6.5, 71)
-    return gx, gp
+        vx, vp, c = V[m, m], V[m + n, m + n], V[m, m + n]
+        det = vx * vp - c * c
+        sx, sp = np.sqrt(vx), np.sqrt(vp)
+        out[m] = _quadgrid(mu[m], sx, mu[m + n], sp, min(0.2 * sx, 0.25 * np.sqrt(det / vp), cap), min(0.2 * sp, 0.25 * np.sqrt(det / vx), cap))
+    return out
 
 
 CUTOFFS = {1: [10, 16, 22], 2: [8, 11, 14], 3: [6, 7, 8]}
 # cross-representation tolerance  1e-6 + C * edge, where edge = weight of the thewalrus tensor at photon numbers >= cutoff-2 in
-# any mode plus the weight above the cutoff.  C = >= 10x the largest |difference| / edge seen on 800 calibration cases
-# (mean_photon 60, number_expectation 73, parity 0.13, quad 6.3, poly_quad 195, fidelity 1.1, fidelity_coherent 0.05,
-# reduced_dm 0.02, fock_prob / fidelity_vacuum exact)
-_CROSS = {"mean_photon": 1000.0, "number_expectation": 1500.0, "parity_expectation": 5.0, "quad_expectation": 100.0, "poly_quad_expectation": 3000.0,
-          "wigner": None, "fidelity_vacuum": 1.0, "fidelity_coherent": 5.0, "fidelity": 20.0, "fock_prob": 1.0, "reduced_dm": 1.0}
+# any mode plus the weight above the cutoff.  C = >= 10x the largest |difference| / edge seen on ~4700 calibration / soak cases
+# (mean, variance): mean_photon (4.6, 60), number_expectation (4.7, 490), quad_expectation (1.9, 6.8), poly_quad_expectation (10.8, 195);
+# parity 0.13, fidelity 1.1, fidelity_coherent 0.05, reduced_dm 0.07, fock_prob / fidelity_vacuum exact
+_CROSS = {"mean_photon": (100.0, 1000.0), "number_expectation": (100.0, 10000.0), "quad_expectation": (30.0, 100.0), "poly_quad_expectation": (200.0, 3000.0),
+          "parity_expectation": 5.0, "wigner": None, "fidelity_vacuum": 1.0, "fidelity_coherent": 5.0, "fidelity": 20.0, "fock_prob": 1.0, "reduced_dm": 1.0}
 EDGE_MAX = 1e-4
 
 
 def _cross_tol(key, edge, tail, h):
+    """scalar tolerance, or (tol_mean, tol_var) for the (mean, variance) pairs"""
     if key == "wigner":  # rigorous: |W_trunc - W| <= ||P rho P - rho||_1 / (pi hbar) <= 2 sqrt(tail) / (pi hbar)
         return 1e-6 + 2 * np.sqrt(max(tail, 0.0)) / (np.pi * h)
-    return 1e-6 + _CROSS[key] * edge
+    c = _CROSS[key]
+    if isinstance(c, tuple):
+        return (1e-6 + c[0] * edge, 1e-6 + c[1] * edge)
+    return 1e-6 + c * edge
 
 
 def _choose_cutoff(mu, V, n, h):
@@ -1320,7 +1342,8 @@ def _check_tri(ctx, case, soft):
     rho = gauss_tensor(mu, V, D, h)
     tail = 1.0 - fockref.trace(rho, n)
     edge = max(0.0, 1.0 - float(np.sum(fockref.probs(rho, n)[(slice(0, D - 2),) * n])))
-    a["gridx"], a["gridp"] = _int_grids(mu, V, n)
+    a["quadgrid"] = _int_grids(mu, V, n)
+    a["quadgrid_fock"] = _int_grids(mu, V, n, 0.4 * np.sqrt(h / D)) if edge < EDGE_MAX else None
     red_cache = {}
 
     def red(md):
@@ -1390,7 +1413,13 @@ def _cross(sig, R1, R2, tolfn, tail=None):
         if name == "reduced_dm" and g1.shape == g2.shape:
             k = g1.ndim // 2
             g1 = g1 * fockref.trace(g2, k) / fockref.trace(g1, k)  # the Gaussian class normalises to trace 1, the others do not
-        _cmp("%s.%s" % (sig, name), g1, g2, tolfn(name), "%s %r%s" % (sig, key, "" if tail is None else " (edge weight %.2g)" % tail))
+        what = "%s %r%s" % (sig, key, "" if tail is None else " (edge weight %.2g)" % tail)
+        tol = tolfn(name)
+        if isinstance(tol, tuple) and g1.shape == g2.shape == (2,):
+            _cmp("%s.%s.mean" % (sig, name), g1[0], g2[0], tol[0], what + " mean")
+            _cmp("%s.%s.var" % (sig, name), g1[1], g2[1], tol[1], what + " variance")
+        else:
+            _cmp("%s.%s" % (sig, name), g1, g2, max(tol) if isinstance(tol, tuple) else tol, what)
 
 
 # =================================================================================================
@@ -1470,8 +1499,8 @@ def _check_fock(ctx, case):
     a["polyquad_heavy"] = k_act > 2
     a["polyquad_var_exact"] = L <= D - 2
     ext = (np.sqrt(2.0 * D) + 4.5) * np.sqrt(h)
-    a["gridx"] = {m: np.linspace(-ext, ext, 81) for m in range(n)}
-    a["gridp"] = {m: np.linspace(-ext, ext, 85) for m in range(n)}
+    a["quadgrid_fock"] = {m: {"xc": np.linspace(-0.6 * ext, 0.6 * ext, 9), "pc": np.linspace(-0.6 * ext, 0.6 * ext, 9),
+                              "xf": np.linspace(-ext, ext, 201), "pf": np.linspace(-ext, ext, 201)} for m in range(n)}
     a["pat"] = [min(x, D - 1) for x in a["pat"]]
     reps = [Probe(BaseFockState(rho.copy(), n, False, D), "F", labels)]
     if len(kets) == 1:
@@ -1567,11 +1596,10 @@ def _check_cat(ctx, case, soft):
     Dr, cs = (10, 10) if n == 1 else (7, 5)
     a["D"], a["cs"] = Dr, cs
     a["pure"] = None
-    a["gridx"], a["gridp"] = {}, {}
-    for m in range(n):
+    a["quadgrid"] = {}
+    for m in range(n):  # interference fringes: step sigma/20
         (mx, vx), (mp, vp) = o.quad(m, 0.0), o.quad(m, np.pi / 2)
-        a["gridx"][m] = mx + np.sqrt(vx) * np.linspace(-6.5, 6.5, 161)
-        a["gridp"][m] = mp + np.sqrt(vp) * np.linspace(-6.5, 6.5, 165)
+        a["quadgrid"][m] = _quadgrid(mx, np.sqrt(vx), mp, np.sqrt(vp), 0.05 * np.sqrt(vx), 0.05 * np.sqrt(vp))
     pat = a["pat"]
     rs = fockref.reduce_dm(rho, n, sorted(modes))
     pd_ = fockref.probs(rs, len(modes))
@@ -1589,17 +1617,21 @@ def _check_cat(ctx, case, soft):
     ctx.note(case, nontrivial=True, labels=sorted(labels))
     R = {}
     check_ps_object(B, o, a, R)
-    # the bosonic answers against exact Fock-space formulas on the ket-derived tensor
-    T = 1e-7
+    # the bosonic answers against exact Fock-space formulas on the ket-derived tensor (same truncation model as gauss_tri)
+    edge = max(0.0, 1.0 - float(np.sum(fockref.probs(rho, n)[(slice(0, D - 2),) * n])))
+    def tol(key):
+        t = _cross_tol(key, edge, tail, h)
+        return 1e-7 + (max(t) if isinstance(t, tuple) else t) - 1e-6
+
     for m in modes:
-        _cmp("bosonic_vs_fock_oracle.mean_photon", R["mean_photon", m], fk_number(rho, n, [m]), T, "cat: mean_photon(%d)" % m)
-        _cmp("bosonic_vs_fock_oracle.quad_expectation", R["quad_expectation", m], fk_quad(rho, n, m, a["phi"], h), T, "cat: quad_expectation(%d)" % m)
-    _cmp("bosonic_vs_fock_oracle.parity_expectation", R["parity_expectation", tuple(sorted(modes))], fk_parity(rho, n, modes), T)
+        _cmp("bosonic_vs_fock_oracle.mean_photon", R["mean_photon", m], fk_number(rho, n, [m]), tol("mean_photon"), "cat: mean_photon(%d)" % m)
+        _cmp("bosonic_vs_fock_oracle.quad_expectation", R["quad_expectation", m], fk_quad(rho, n, m, a["phi"], h), tol("quad_expectation"), "cat: quad_expectation(%d)" % m)
+    _cmp("bosonic_vs_fock_oracle.parity_expectation", R["parity_expectation", tuple(sorted(modes))], fk_parity(rho, n, modes), tol("parity_expectation"))
     r1 = fockref.reduce_dm(rho, n, [modes[0]])
     expw = np.array([[fk_wigner_point(r1, x, p_, h) for x in a["xs"]] for p_ in a["ps"]])
-    _cmp("bosonic_vs_fock_oracle.wigner", R["wigner"], expw, T, "cat: wigner(%d)" % modes[0])
-    _cmp("bosonic_vs_fock_oracle.fidelity_coherent", R["fidelity_coherent"], fk_fid_product(rho, n, [coh_vec(al, D) for al in a["alphas"]]), T)
-    _cmp("bosonic_vs_fock_oracle.fidelity_vacuum", R["fidelity_vacuum"], float(rho[(0,) * (2 * n)].real), T)
+    _cmp("bosonic_vs_fock_oracle.wigner", R["wigner"], expw, tol("wigner"), "cat: wigner(%d)" % modes[0])
+    _cmp("bosonic_vs_fock_oracle.fidelity_coherent", R["fidelity_coherent"], fk_fid_product(rho, n, [coh_vec(al, D) for al in a["alphas"]]), tol("fidelity_coherent"))
+    _cmp("bosonic_vs_fock_oracle.fidelity_vacuum", R["fidelity_vacuum"], float(rho[(0,) * (2 * n)].real), tol("fidelity_vacuum"))
     for lb in sorted(labels):
         if lb.startswith(("m:", "rep:")) or lb in ("unsorted_rejected",):
             ctx.label(lb)
@@ -1701,11 +1733,11 @@ def check_samples(ctx, case):
 
 
 SUBS = [
-    Sub("gauss_tri", check=check_tri, strategy=lambda ctx: tri_case(), examples={"quick": 130, "thorough": 2500}, shards={"quick": 4, "thorough": 16},
+    Sub("gauss_tri", check=check_tri, strategy=lambda ctx: tri_case(), examples={"quick": 180, "thorough": 2500}, shards={"quick": 4, "thorough": 16},
         budget={"quick": 100, "thorough": 1500}, rule="one Gaussian state as gaussian / bosonic / fock object: every method vs oracle and across representations"),
-    Sub("fock_nongauss", check=check_fock, strategy=lambda ctx: fock_case(), examples={"quick": 160, "thorough": 3000}, shards={"quick": 1, "thorough": 8},
+    Sub("fock_nongauss", check=check_fock, strategy=lambda ctx: fock_case(), examples={"quick": 250, "thorough": 3000}, shards={"quick": 1, "thorough": 8},
         budget={"quick": 100, "thorough": 1500}, rule="random low-photon kets / two-term mixtures as fock objects (ket and tensor data) vs exact Fock formulas"),
-    Sub("bosonic_cat", check=check_cat, strategy=lambda ctx: cat_case(), examples={"quick": 120, "thorough": 2000}, shards={"quick": 1, "thorough": 8},
+    Sub("bosonic_cat", check=check_cat, strategy=lambda ctx: cat_case(), examples={"quick": 200, "thorough": 2000}, shards={"quick": 1, "thorough": 8},
         budget={"quick": 100, "thorough": 1500}, rule="cat state (4 complex-weighted Gaussians), alone or beside a Gaussian mode, vs four-Gaussian formulas and the exact ket"),
     Sub("samples", check=check_samples, strategy=lambda ctx: samples_case(), examples={"quick": 1500, "thorough": 20000}, shards={"quick": 1, "thorough": 4},
         budget={"quick": 100, "thorough": 600}, rule="samples_expectation / samples_variance / all_fock_probs_pnr vs numpy formulas, invalid input rejected"),
